@@ -3,7 +3,7 @@ import ast
 import time
 import z3
 from .values import *
-from .engine import Engine, State, Record, Outcome, Obligation, LoopSpec, Out, Raised, CallCtx, zt, wrap_const
+from .engine import Engine, State, Record, Outcome, Obligation, LoopSpec, Out, Raised, CallCtx, zt, wrap_const, Prove
 from . import extract
 
 
@@ -30,7 +30,7 @@ class Spec:
                  inline=None, loops=None, requires=None, ensures=None, raises=None, always=None,
                  globals=None, truthy=None, class_consts=None, exc_attrs=None, local_types=None,
                  len_of=None, trusted=None, notes='', returns=None, modifies=None, tags=None, setup=None,
-                 region=None, falsy_sorts=(), cases=None):
+                 region=None, falsy_sorts=(), cases=None, lemmas=None):
         self.prop, self.module, self.qualname, self.self_class = prop, module, qualname, self_class
         self.params = {k: parse_type(v) for k, v in (params or {}).items()}
         self.classes = {c: {f: parse_type(t) for f, t in fs.items()} for c, fs in (classes or {}).items()}
@@ -55,6 +55,7 @@ class Spec:
         self.setup = setup
         self.region = region
         self.falsy_sorts = set(falsy_sorts)
+        self.lemmas = lemmas    # fn(ctx) -> [z3] definitional instances assumed before the postconditions
         self.cases = cases      # [(label, {field: python const})]: finite case split of the pre-state
         Spec.registry.append(self)
 
@@ -348,6 +349,10 @@ def _generate(spec, mutate=None, case=None):
         res.inputs = st.inputs
         for i, oc in enumerate(outcomes):
             s = oc.state
+            if spec.lemmas:
+                lc = Ctx(ex, ex.entry_state, s, ex.self_ref, result=oc.value,
+                         raised=oc.value.cls if oc.kind == 'raise' else None)
+                ex.use_lemmas(s, spec.lemmas(lc), fn)
             if oc.kind == 'return':
                 c = Ctx(ex, ex.entry_state, s, ex.self_ref, result=oc.value)
                 for label, f in spec.ensures:
